@@ -132,6 +132,51 @@ def extreme_es_fails(rng):
     return None
 
 
+def normalised_prediction_fails(alpha, T):
+    """IncrementalSage's normalised running mean prediction for a probability-vector model, binary64 vs exact, after every call of a
+    long smoothing stream (the sum of the smoothed probabilities approaches 1 from below like 1-(1-alpha)^t)"""
+    import random as pyrandom
+    import warnings
+    from harness import rng as hrng
+    from harness.q import Q
+    from ixai.explainer import IncrementalSage
+    from ixai.storage import GeometricReservoirStorage
+    from ixai.imputer import MarginalImputer
+    out = {}
+    for mode in ("exact", "float"):
+        conv = (lambda v: Q(v)) if mode == "exact" else float
+        r = pyrandom.Random(5)
+
+        def model(x):
+            p = conv(0.25) + x["a"] * conv(0.5)
+            return {"yes": p, "no": conv(1) - p}
+
+        def loss(y, p):
+            return (p.get("yes", 0) - y) * (p.get("yes", 0) - y)
+        with warnings.catch_warnings():
+            warnings.simplefilter("ignore")
+            d = hrng.Scripted(pyrandom.Random(6), real_fn=lambda g: g.random())
+            with d.installed():
+                st = GeometricReservoirStorage(size=2, store_targets=False, constant_probability=1.0)
+                ex = IncrementalSage(model, loss, ["a"], storage=st, imputer=MarginalImputer(model, "joint", st), n_inner_samples=1,
+                                     dynamic_setting=True, smoothing_alpha=conv(alpha))
+                vals = []
+                for t in range(T):
+                    ex.explain_one({"a": conv(r.randint(0, 8) / 8)}, conv(r.randint(0, 1)))
+                    vals.append(dict(ex.marginal_prediction))
+        out[mode] = vals
+    for t, (e, f) in enumerate(zip(out["exact"], out["float"])):
+        # independent reference: a normalised view of more than one label sums to one (exactly / to rounding)
+        if len(e) > 1 and sum(e.values()) != 1:
+            return f"after {t + 1} calls (alpha={alpha}) the exact normalised marginal prediction sums to {float(sum(e.values()))!r}, not 1"
+        if len(f) > 1 and abs(sum(f.values()) - 1.0) > 8 * U:
+            return f"after {t + 1} calls (alpha={alpha}) the binary64 normalised marginal prediction sums to {sum(f.values())!r} (|sum - 1| = {abs(sum(f.values()) - 1.0):.3e})"
+        for k in e:
+            if abs(float(f[k]) - float(e[k])) > 1e-12 * (t + 2):
+                return f"after {t + 1} calls (alpha={alpha}) the normalised marginal prediction of {k!r} is {float(f[k])!r} in binary64 but {float(e[k])!r} exactly"
+    return None
+
+
 def explainer_pair_fails(kind, dynamic, T, sd):
     """the same stream, callbacks and draws through a real explainer once in exact rationals and once in binary64: the float
     importance values must stay within rounding of the exact ones ("trackers AND EXPLAINERS stay close to the exact result")"""
@@ -260,6 +305,14 @@ def run(tier="quick", seed=0, replay=None):
             f = f"raised {core.err_kind(exn)}: {exn}"
         if f:
             chk.violation("explainer-float", f"{kind} (dynamic={dynamic}, seed {sd}): {f}", {"tracker": "explainer", "kind": kind, "dynamic": dynamic, "calls": T, "seed": sd})
+    for alpha, T in ((0.125, 260), (0.5, 60)) if quick else ((0.125, 400), (0.5, 80), (0.02, 1300)):
+        chk.case({"oracle": "normalised-marginal-prediction", "alpha": alpha, "calls": T}, nontrivial=True, sample=False)
+        try:
+            f = normalised_prediction_fails(alpha, T)
+        except Exception as exn:
+            f = f"raised {core.err_kind(exn)}: {exn}"
+        if f:
+            chk.violation("explainer-float", f"IncrementalSage with a probability-vector model: {f}", {"tracker": "explainer", "alpha": alpha, "calls": T})
     ex = extreme_es_fails(rng)
     chk.case({"oracle": "es-extreme-magnitudes"}, nontrivial=True, sample=False)
     if ex:
